@@ -147,6 +147,11 @@ func famCap() {
 	}
 	seen := map[capDesc]bool{}
 	id := *fIDBase - 1
+	ntrees := 250
+	if thorough {
+		ntrees = 6000
+	}
+	capTrees(r, &id, ntrees)
 	envs := []Env{{"x": true, "n": int64(1)}, {"x": false, "n": int64(2)}}
 	for _, d := range ds {
 		if seen[d] {
@@ -165,13 +170,13 @@ func famCap() {
 		}
 		for _, mask := range masks {
 			for _, evm := range []string{"", "report", "debug"} {
-				if hugeSrc && !thorough && evm == "debug" {
-					continue // same layout as report; thorough runs both
+				if hugeSrc && !thorough && evm == "debug" && mask != 0 {
+					continue // same layout as report: the quick tier compiles Debug under one subset only
 				}
 				id++
 				l := &Log{Phase: "compile"}
 				cc, _ := newConf(ConfOpts{Mask: mask, Events: evm}, l)
-				rec := M{"fam": "cap", "for": "C09", "id": id, "desc": M{"fam": d.Fam, "op": d.Op, "a": d.A, "b": d.B},
+				rec := M{"fam": "cap", "for": "C09", "kind": "family", "id": id, "desc": M{"fam": d.Fam, "op": d.Op, "a": d.A, "b": d.B},
 					"m": maskRec(mask), "ev": evm, "events": evm != ""}
 				if !hugeSrc {
 					rec["src"] = src
@@ -249,6 +254,92 @@ func famCap() {
 		}
 		if os.Getenv("CAP_TIMING") != "" && time.Since(t0) > 300*time.Millisecond {
 			fmt.Fprintln(os.Stderr, "slow", d, time.Since(t0))
+		}
+	}
+}
+
+// capTrees: random deep, narrow trees (spines) of arbitrary shape -- if in the condition, in the true
+// or the false branch, three-operand operators, fast and plain operators mixed -- around the stack
+// class boundaries.  Judged against Den and the LOOP high-water mark, no closed form needed.
+func capTrees(r *rand.Rand, id *int, n int) {
+	g := &gen{r: r, c: GenCfg{Custom: true, Alias: true, MaxKids: 3, Consts: true, ConstBias: 30}}
+	envs := []Env{{"x": true, "y": false, "z": true, "n": int64(1), "m": int64(2)}, {"x": false, "y": true, "z": false, "n": int64(2), "m": int64(0)}}
+	seen := map[string]bool{}
+	for i := 0; i < n; i++ {
+		typ := "b"
+		if r.Intn(2) == 0 {
+			typ = "i"
+		}
+		t := g.spine(typ, 5+r.Intn(16))
+		src := t.Src()
+		if len(t.Kids) == 0 || seen[src] {
+			continue
+		}
+		seen[src] = true
+		for _, mask := range []int{0, 4, 15, r.Intn(16)} {
+			for _, evm := range []string{"", "report"} {
+				*id++
+				l := &Log{Phase: "compile"}
+				cc, _ := newConf(ConfOpts{Mask: mask, Events: evm}, l)
+				rec := M{"fam": "cap", "for": "C09", "kind": "tree", "id": *id, "src": src, "tree": t, "m": maskRec(mask), "ev": evm, "events": evm != ""}
+				var e *eval.Expr
+				var err error
+				p := safely(func() M { e, err = eval.Compile(cc, src); return nil })
+				l.Phase = "eval"
+				runs := []interface{}{}
+				switch {
+				case p != nil:
+					rec["cout"] = "panic"
+				case err != nil:
+					rec["cout"] = "err"
+				default:
+					rec["cout"] = "ok"
+					vp := eval.VerifProgram(e)
+					rec["max"], rec["size"] = vp.MaxStack, len(vp.Nodes)
+					for ei, env := range envs {
+						run := M{"e": ei + 1}
+						hw := 0
+						for _, api := range []string{"res", "try"} {
+							api := api
+							var done chan struct{}
+							if evm != "" {
+								ch := make(chan eval.Event, 64)
+								e.EventChan = ch
+								done = make(chan struct{})
+								go func() {
+									for ev := range ch {
+										if ev.EventType == eval.LoopEvent && len(ev.Stack) > hw {
+											hw = len(ev.Stack)
+										}
+									}
+									close(done)
+								}()
+							}
+							run[api] = safely(func() M {
+								ctx := &eval.Ctx{VariableFetcher: &Fetcher{Vals: env}}
+								if api == "try" {
+									v, err := e.TryEval(ctx)
+									return outcome(v, err)
+								}
+								v, err := e.Eval(ctx)
+								return outcome(v, err)
+							})
+							if evm != "" {
+								close(e.EventChan)
+								<-done
+							}
+						}
+						run["hw"], run["nev"] = hw, 0
+						runs = append(runs, run)
+					}
+				}
+				er := []interface{}{}
+				for _, env := range envs {
+					er = append(er, envRec(env))
+				}
+				rec["envs"], rec["runs"] = er, runs
+				emit(rec)
+			}
 		}
 	}
 }
